@@ -110,11 +110,12 @@ func parseMultiLocalisedUnicode(data []byte) (MultiLocalisedUnicode, error) {
 			return result, err
 		}
 
-		if uint64(stringOffset)+uint64(stringLength) > uint64(len(data)) {
+		stringEnd := uint64(stringOffset) + uint64(stringLength)
+		if stringEnd > uint64(len(data)) {
 			return result, fmt.Errorf("record exceeds tag data length")
 		}
 
-		recordStringBytes := data[stringOffset : stringOffset+stringLength]
+		recordStringBytes := data[stringOffset:stringEnd]
 		recordStringUTF16 := make([]uint16, len(recordStringBytes)/2)
 		for j := 0; j < len(recordStringUTF16); j++ {
 			recordStringUTF16[j] = uint16(recordStringBytes[2*j])<<8 | uint16(recordStringBytes[2*j+1])
